@@ -184,7 +184,7 @@ def gen_case(rng, cid, ood=False, force=None):
     g = 0
     if rng.random() < 0.3:
         g = rng.choice([-1, -2, -3, -4, 1, 7, 1000, INT_MIN])
-    kinds = ["backup"] * 3 + ["restore"] * 5 + ["sync"] * 3 + ["merge"] * 4 + ["export", "import", "import", "ubackup", "foreign"]
+    kinds = ["backup"] * 3 + ["restore"] * 5 + ["sync"] * 3 + ["merge"] * 4 + ["export", "import", "import", "ubackup", "foreign", "leftover"]
     if ood:
         kinds += ["urestore", "restoref", "restoref"]
     if g != 0:
@@ -207,6 +207,14 @@ def gen_case(rng, cid, ood=False, force=None):
         elif k in ("import", "urestore", "restoref"):
             s = rng.choice([0, 1, 2, 7] if k == "import" else [0, 1, 2, 6])
             ops.append((k, i, s))
+        elif k == "leftover":
+            # a restore killed after filling its scratch db, then a restore / synchronize by the same installation
+            j = rng.randrange(nusers)
+            ops.append(("backup", j, None))
+            ops.append((k, i, j))
+            j2 = rng.randrange(nusers)
+            ops.append(("backup", j2, None))
+            ops.append(rng.choice([("restore", i, j2), ("restore", i, j2), ("sync", i, None), ("backup", i, None)]))
         elif k == "foreign":
             # the dictionary carries another installation's id: the next Backup / Synchronize re-creates its metadata first
             ops.append((k, i, None))
@@ -332,6 +340,15 @@ def boundary_cases(prefix):
     out.append(dict(id="%s%d" % (prefix, n), g=0, files={}, ood=True, paint=False,
                     dbs={0: (5, {k1: v(1, 1)}), 1: (9, {b"lf \tT\nq": v(4, 2), k2: v(-2, 3)})},
                     ops=[("backup", 1, None), ("restore", 0, 1), ("ubackup", 1, 0), ("urestore", 0, 0)]))
+    n += 1
+    # round 4: snapshots whose size is a power-of-two multiple (255 / 256 / 257 / 512 records) with the larger tick - sizes
+    # at which a batched writer's remainder is empty; tick, keys and magnitudes are judged as for any merge
+    for size in (255, 256, 257, 512):
+        big = {b"k%03d \tT%03d" % (i, i): v(1 + i % 5, 1 + i % 7) for i in range(size)}
+        out.append(dict(id="%s%d" % (prefix, n), g=0, files={}, ood=False, paint=False,
+                        dbs={0: (40, {k1: v(2, 3), b"k001 \tT001": v(9, 4)}), 1: (5000, big)},
+                        ops=[("backup", 1, None), ("restore", 0, 1), ("restore", 0, 1), ("merge", 0, 1)]))
+        n += 1
     return out
 
 
@@ -459,6 +476,10 @@ def check_merge(before, sources, after, stats=None):
             if k not in after["ents"]:
                 bad.append(("key-lost-theirs", k))
     for k, (c, t) in after["ents"].items():
+        # merging invents nothing (C17_merge_keys_kept): every entry of the result comes from one of the two sides
+        if k not in before["ents"] and not any(k in s["ents"] for s in sources):
+            bad.append(("key-invented", k))
+            continue
         mags = [abs(s["ents"][k][0]) for s in sources if k in s["ents"]]
         if k in before["ents"]:
             mags.append(abs(before["ents"][k][0]))
@@ -735,7 +756,7 @@ def run(ctx):
                         stats["idempotence_pairs"] += 1
                         if prev[1]["ents"] != after["ents"] or prev[1]["tick"] != after["tick"]:
                             bad.append(("second-merge-changes", b""))
-                elif k in ("backup", "export", "ubackup", "foreign"):
+                elif k in ("backup", "export", "ubackup", "foreign", "leftover"):
                     if before["ents"] != after["ents"]:
                         bad.append(("read-only-op-changed-entries", b""))
                     # a snapshot is a copy: writing one leaves the dictionary's tick alone (otherwise a later merge ends below
